@@ -44,6 +44,39 @@ CLAIMS["C08"] = dict(
           "clock; the table-level placement/split is decided by the table harnesses listed in evidence."),
 )
 
+CLAIMS["C06"] = dict(
+    text=("Token store level: for every IPv4/IPv6 address, every store age at issue (0..3 h), up to 1 (quick) / 2 (thorough) "
+          "interleaved other events at symbolic times and a symbolic final gap (1 ns resolution, symbolic clock start) the solver "
+          "decides: accepted whenever younger than 600 s, refused from 1800 s on, refused from any other IP, refused when never "
+          "issued or issued by a store with other secrets; Token::new accepts exactly 20 bytes. Bounded by the number of "
+          "interleaved events; SHA-1 and the secret draws are idealised as stated."),
+    note=("Assumes SHA-1 collision-free (lazy random oracle) and fresh secrets distinct; virtual clock; the handler-side wiring "
+          "(source IP passed, storing gated on the result) is outside (handler.rs is not encodable, DESIGN.md F7)."),
+)
+CLAIMS["C09"] = dict(
+    text=("The bucket-index walk behind every nearest-node enumeration is decided completely: one symbolic step proves that the "
+          "next index is inside the table, not visited before, and the nearest unvisited one (right before left), for every start "
+          "0..=160 and every position; the whole walk from a symbolic start is unrolled to show it ends after exactly 159/160 moves. "
+          "Together: every bucket index is visited exactly once, nearest first. The iterator over actual table contents and the "
+          "take(8)/family filter are outside (stated)."),
+    note="Loop-free integer kernel + one 161-step unrolling; no stubs. ClosestNodes::next on real tables did not terminate in CBMC (DESIGN.md F20/F22).",
+)
+CLAIMS["C19"] = dict(
+    text=("Generator level: from an arbitrary valid in-block state (any action id, any block, the two ids read arbitrary within a "
+          "permutation's guarantees) two consecutive draws differ, are 8 bytes big-endian prefix(5)|message(3), carry the activity's "
+          "prefix, and another activity's prefix differs; block regeneration at the first/last block and at the 2^24 / 2^40 wrap yields "
+          "exactly the next id range; from_bytes accepts exactly 8 bytes. Quick fixes the position in the block (first/middle/last), "
+          "thorough makes it symbolic."),
+    note="Shuffle replaced by a nondeterministic permutation under cfg(kani) (hook H2); block fills are concrete executions inside CBMC at 3-5 markers; use of the ids by lookup/refresh/bootstrap is outside.",
+)
+CLAIMS["C13"] = dict(
+    text=("btdht's own decoding code for compact peers and nodes is decided on every boundary length (multiples of 26/38 accepted, "
+          "neighbours refused; 6/18-byte peers accepted, 5/7/17/19 refused) with all content bytes symbolic: decoded ids, addresses and "
+          "big-endian ports equal the input bytes; compact address encode/decode are inverse for every address and port. Further layers "
+          "(message dictionaries, canonical encoding) are listed per harness in the evidence as they are registered."),
+    note="serde in-memory deserializers replace the bencode text parser (not encodable, DESIGN.md F8/F14); lists <= 2 entries.",
+)
+
 NOT_APPLICABLE = {
     "C01": "needs >=2 complete nodes (tokio runtime, spawned bootstrap task, UDP, 24 h of timers); a tokio runtime cannot be compiled by Kani (compiler panic on catch_unwind intrinsic) and DhtHandler does not terminate in CBMC (DESIGN.md F6/F7)",
     "C11": "hours of handler + refresh + timer + bootstrap under a runtime (F6/F7); no sequential kernel carries the claim",
